@@ -48,6 +48,10 @@ def cases(draw, prof):
                 ts = [y0 + i * draw(st.sampled_from([dt, 2.5 * dt, 1.0])) for i in range(npts)]
                 ts = sorted(set(ts))
                 ys = [draw(st.sampled_from([0.0, 0.1, 0.5, 1.0, 3.0, 20.0])) for _ in ts]
+                if len(ts) > 1 and draw(st.integers(0, 2)) == 0:
+                    # the overwrite points may be listed in any order (the scenario starts at the earliest one)
+                    order = draw(st.permutations(list(range(len(ts)))))
+                    ts, ys = [ts[i] for i in order], [ys[i] for i in order]
                 vals.setdefault(name, {})[pop] = {"t": ts, "y": ys}
         if trans and draw(st.booleans()):
             name, key = draw(st.sampled_from(trans))
